@@ -85,7 +85,30 @@ def step (_ : Unit) (j : Json) : R (Unit × Json) := do
     | some e =>
     pure ((), obj [("nodes", ofList ofV3 e.nodes), ("fn", ofList ofNats e.fn),
                    ("cf", ofList (ofList ofFaceSign) e.cf),
-                   ("cell_map", ofList ofNats e.cellMap), ("face_map", ofList ofNats e.faceMap)])
+                   ("cell_map", ofList ofNats e.cellMap), ("face_map", ofList ofNats e.faceMap),
+                   ("fn_ord", if dim == 2 then ofList ofNats (facesOrdered b z) else Json.null)])
+  | "mdg_interface" =>
+    let cells ← fNats j "cells"
+    let faces ← fNats j "faces"
+    let ncLow ← fNat j "nc_low"
+    let nfHigh ← fNat j "nf_high"
+    let L ← fNat j "layers"
+    if cells.length != faces.length then throw "length mismatch" else
+    let pairs := cells.zip faces
+    let other := otherSide nfHigh L pairs
+    let sides := if other.isEmpty then 1 else 2
+    pure ((), obj [("pairs", ofList ofPair (coupleLayers ncLow nfHigh L pairs)), ("other_side", ofNats other),
+                   ("sides", ofNat sides), ("mortar_cells", ofNat (mortarCells sides ncLow L))])
+  | "srefcart" =>
+    let t3 (l : List Rat) : R R3 := match l with
+      | [a, b, c] => pure (a, b, c)
+      | _ => throw "3 rationals expected"
+    let o ← t3 (← fRats j "o")
+    let h ← t3 (← fRats j "h")
+    let n ← toTriple (← fNats j "n")
+    let r ← toTriple (← fNats j "r")
+    let cols := cartSweep o h n r
+    pure ((), obj [("cols", ofList ofNats cols), ("count", ofNat (assignedCount cols))])
   | "echo" => pure ((), Json.str "ok")
   | _ => throw s!"unknown op {op}"
 
